@@ -103,11 +103,6 @@ def generate(seed, prop, bias):
         'ops': [],
         'chunk_size': rng.choice([64, 256, 1024, 16384]),
     }
-    if backend in ('redis', 'cloud+mq') and scn['store_pool'] == 1:
-        # _wait_store occupies one store-pool slot for ever on backends that
-        # implement wait(); a pool of 1 is a configuration deadlock, not a
-        # schedule of interest.
-        scn['store_pool'] = 2
     if backend == 'cloud+mq':
         scn['mq_dup_every'] = rng.choice([0, 0, 2, 3])
         scn['poll_pause'] = rng.choice([0.5, 1.0, 5.0])
